@@ -88,6 +88,9 @@ def run_case(cs, ctx):
                 st = op.parse_results(ex['short'])['stats'] if ex['short'] else None
             except op.ParseError:
                 st = None
+            if any(e.get('backend_fault') for e in ex['events']):
+                ctx.cnt('lp_differential_excluded_backend_fault')
+                st = None
             if st and 'matching' in st:
                 pairs = {'size': (st['size'], got['vals']['optimal_size']),
                          'cost': (st['cost'][0], got['vals']['optimal_maxsizemincost'][0]),
